@@ -313,6 +313,13 @@ func (r *rateLimiter[R]) acquirePermitsWithMaxWait(ctx context.Context, exec fai
 		case <-timer.C:
 		case <-exec.Canceled():
 			timer.Stop()
+			// Return the error the execution was canceled with. The execution's last error may still be that of a previous
+			// attempt, such as an earlier rejection by this rate limiter, when it is the context that was canceled.
+			if execInternal, ok := exec.(policy.ExecutionInternal[R]); ok {
+				if canceled, cancelResult := execInternal.IsCanceledWithResult(); canceled && cancelResult != nil && cancelResult.Error != nil {
+					return cancelResult.Error
+				}
+			}
 			return exec.LastError()
 		}
 	}
